@@ -33,7 +33,14 @@ def one(kind, name, patch, props, repo):
         ok = True
         for p in props:
             _, rc, cons, err = run_check(p, tree)
-            if kind == "seeded":
+            if kind == "declined":
+                # a seeded change this family of technique cannot decide (recorded honestly): the check must not crash
+                if rc == 2:
+                    ok = False
+                    msgs.append("%s: exit 2 %s" % (p, err[:1]))
+                else:
+                    msgs.append("%s: exit %d (declined: %s)" % (p, rc, "now caught" if rc == 1 else "not decidable here"))
+            elif kind == "seeded":
                 if rc != 1:
                     ok = False
                     msgs.append("%s: expected a VIOLATION, got exit %d %s" % (p, rc, err[:1]))
@@ -53,7 +60,7 @@ def jobs_for(prop=None):
     for d in sorted(glob.glob(os.path.join(VERIF, "seeded", "*", "meta.json"))):
         m = json.load(open(d))
         if prop is None or m["breaks_property"] == prop:
-            todo.append(("seeded", m["id"], os.path.join(os.path.dirname(d), "patch.diff"), [m["breaks_property"]]))
+            todo.append(("declined" if m.get("declined") else "seeded", m["id"], os.path.join(os.path.dirname(d), "patch.diff"), [m["breaks_property"]]))
     for d in sorted(glob.glob(os.path.join(HERE, "benign", "*", "patch.diff"))):
         todo.append(("benign", os.path.basename(os.path.dirname(d)), d, [prop] if prop else ALL))
     return todo
@@ -70,7 +77,7 @@ if __name__ == "__main__":
     res = run_for_property(prop)
     bad = 0
     for kind, name, st, msg in res:
-        if st != "ok" or kind == "seeded":
+        if st != "ok" or kind in ("seeded", "declined"):
             print("%-7s %-4s %-10s %s" % (kind, st, name, msg[:200]))
         bad += st == "FAIL"
     na = sum(1 for r in res if r[2] == "n/a")
